@@ -84,6 +84,17 @@ func c10Case(w *rt.W, text string, r roman.Rule) (accepted bool) {
 		out = append(out, res{"Valid[named string]", 0, err, true, romanTyped(err)})
 		err = roman.Valid(romanNamedB(text), r)
 		out = append(out, res{"Valid[named []byte]", 0, err, true, romanTyped(err)})
+		// named types that print themselves differently from what they contain
+		g, err = roman.DefaultParser(loudS(text), r)
+		out = append(out, res{"DefaultParser[string type with String()]", g, err, false, errTypeHas(err, "*roman.NumberFormatError[")})
+		g, err = roman.DefaultParser(trimB(text), r)
+		out = append(out, res{"DefaultParser[[]byte type with trimming String()]", g, err, false, errTypeHas(err, "*roman.NumberFormatError[")})
+		err = roman.Valid(errS(text), r)
+		out = append(out, res{"Valid[string type with Error()]", 0, err, true, errTypeHas(err, "*roman.NumberFormatError[")})
+		err = roman.Valid(hexB(text), r)
+		out = append(out, res{"Valid[[]byte type with hex String()]", 0, err, true, errTypeHas(err, "*roman.NumberFormatError[")})
+		g, err = roman.DefaultParser(fmtS(text), r)
+		out = append(out, res{"DefaultParser[string type with Format()]", g, err, false, errTypeHas(err, "*roman.NumberFormatError[")})
 	}
 	{ // the text sits inside a larger buffer: what follows it belongs to the caller
 		rec := append(append(make([]byte, 0, len(text)+16), text...), "|VIX"...)
